@@ -169,10 +169,50 @@ theorem entryScoped_out_cases (w : World) (ty t : Nat) (bv : Bool) (p : WPanic)
     rw [fetchCore_ok (c := ⟨ty, t, .free⟩) (b' := .excl) _ _ _ _ _ (by simp [get_def]) rfl] at hp
     cases hp
 
+theorem insertFused_out (w : World) (a : Nat) (k : ResId) (t : Nat) :
+    (w.insertFused a k t).2 =
+      if a ≠ k.ty then .panic .wrongType else if (w.abs k).isSome then .unwound .drop else .unit := by
+  unfold insertFused
+  have ho := insertById_out w a k t
+  generalize w.insertById a k t = r at ho
+  obtain ⟨w', o⟩ := r
+  simp only [] at ho
+  by_cases hx : a ≠ k.ty
+  · rw [if_pos hx] at ho ⊢; subst ho; cases w.get k <;> rfl
+  · rw [if_neg hx] at ho ⊢; subst ho
+    cases hk : w.get k <;> simp [World.abs, hk]
+
+/-- the answer of an `entry` call whose caller panics while holding the guard: what the plain call
+answers, except that a returned guard becomes the caller's panic -/
+theorem entryFault_guardHeld_panic (w : World) (ty t : Nat) (bv : Bool) (p : WPanic)
+    (hp : (w.entryFault ty t (.guardHeld bv)).2 = .panic p) : (w.entryScoped ty t bv).2 = .panic p := by
+  simp only [entryFault, entryScoped] at hp ⊢
+  generalize w.entryOrInsert ty t bv = r at hp ⊢
+  obtain ⟨w', o⟩ := r
+  cases o <;> first | exact hp | cases hp
+
+theorem entryFault_panic_frame (w : World) (ty t : Nat) (f : EntryFault) (p : WPanic)
+    (hp : (w.entryFault ty t f).2 = .panic p) :
+    (w.entryFault ty t f).1.cells = w.cells ∧ (w.entryFault ty t f).1.guards = w.guards := by
+  cases f with
+  | guardHeld bv =>
+    rw [entryFault_guardHeld_fst]
+    exact entryScoped_out_cases w ty t bv p (entryFault_guardHeld_panic w ty t bv p hp)
+  | valueDrop =>
+    unfold entryFault at hp ⊢
+    cases hk : w.get ⟨ty, 0⟩ with
+    | some c => simp only [hk] at hp; cases hp
+    | none => simp only [hk] at hp ⊢; exact entryScoped_out_cases w ty t true p hp
+  | closure =>
+    unfold entryFault at hp ⊢
+    cases hk : w.get ⟨ty, 0⟩ with
+    | some c => simp only [hk] at hp ⊢; exact entryScoped_out_cases w ty t false p hp
+    | none => simp only [hk] at hp; cases hp
+
 /-- **`panic_frame`**: an operation that panics leaves the resource table and the guard table
 exactly as they were. (`exec` is `setup` followed by the fetch: see `exec_panic_frame`.) -/
 theorem step_panic_frame {w : World} (hw : Inv w) (hh : HandlesOk w) (op : Op) (p : WPanic)
-    (hne : ∀ items toks, op ≠ .exec items toks) (hp : (w.step op).2 = .panic p) :
+    (hne : ∀ items toks, op ≠ .exec items toks ∧ op ≠ .execFault items toks) (hp : (w.step op).2 = .panic p) :
     (w.step op).1.cells = w.cells ∧ (w.step op).1.guards = w.guards := by
   cases op with
   | insert ty tok =>
@@ -201,7 +241,7 @@ theorem step_panic_frame {w : World} (hw : Inv w) (hh : HandlesOk w) (op : Op) (
   | getMut ty => exact ⟨rfl, rfl⟩
   | getMutRaw k => exact ⟨rfl, rfl⟩
   | setup items toks => cases hp
-  | exec items toks => exact absurd rfl (hne items toks)
+  | exec items toks => exact absurd rfl (hne items toks).1
   | fetch ty => have := fetchCore_panic_frame _ _ _ _ _ p hp; exact ⟨by rw [show (w.step (.fetch ty)).1 = _ from this], by rw [show (w.step (.fetch ty)).1 = _ from this]⟩
   | fetchMut ty => have := fetchCore_panic_frame _ _ _ _ _ p hp; exact ⟨by rw [show (w.step (.fetchMut ty)).1 = _ from this], by rw [show (w.step (.fetchMut ty)).1 = _ from this]⟩
   | tryFetch ty => have := fetchCore_panic_frame _ _ _ _ _ p hp; exact ⟨by rw [show (w.step (.tryFetch ty)).1 = _ from this], by rw [show (w.step (.tryFetch ty)).1 = _ from this]⟩
@@ -228,6 +268,16 @@ theorem step_panic_frame {w : World} (hw : Inv w) (hh : HandlesOk w) (op : Op) (
     have := cloneGuard_panic_frame w h p hp
     exact ⟨by rw [show (w.step (.clone h)).1 = _ from this], by rw [show (w.step (.clone h)).1 = _ from this]⟩
   | drop h => cases hp
+  | scope tys takes e => simp [step, scope] at hp
+  | insertFused a k tok =>
+    simp only [step] at hp ⊢
+    rw [insertFused_out] at hp
+    rw [insertFused_fst]
+    by_cases hx : a ≠ k.ty
+    · simp only [insertById, if_pos hx]; exact ⟨trivial, trivial⟩
+    · rw [if_neg hx] at hp; split at hp <;> cases hp
+  | entryFault ty tok f => exact entryFault_panic_frame w ty tok f p hp
+  | execFault items toks => exact absurd rfl (hne items toks).2
 
 /-- `exec` that panics (in its fetch) leaves the world as `setup` made it, with no guard alive -/
 theorem exec_panic_frame {w : World} (hw : Inv w) (hg : w.guards = []) (items : List SdItem) (toks : List Nat)
@@ -250,6 +300,23 @@ theorem exec_panic_frame {w : World} (hw : Inv w) (hg : w.guards = []) (items : 
   | none => cases hp
   | value _ => cases hp
   | seen _ => cases hp
+  | scopeDone _ _ => cases hp
+  | unwound _ => cases hp
+
+/-- the same when the closure panics: either the fetch was refused (then see `exec_panic_frame`) or
+the closure was entered and unwinding dropped its data: no guard is left either way -/
+theorem execFault_spec (w : World) (items : List SdItem) (toks : List Nat) :
+    (w.execFault items toks).1 = (w.exec items toks).1 ∧
+    (((w.execFault items toks).2 = .unwound .closure ∧ ∃ fs, (w.exec items toks).2 = .data fs) ∨
+     (∃ p, (w.execFault items toks).2 = .panic p ∧ (w.exec items toks).2 = .panic p)) := by
+  refine ⟨execFault_fst w items toks, ?_⟩
+  have h1 := sysData_out (w.setup items toks).1 items
+  unfold execFault exec
+  generalize sysData _ items = r at h1
+  obtain ⟨w2, o⟩ := r
+  rcases h1 with ⟨fs, h⟩ | ⟨p, h⟩
+  · simp only [] at h; subst h; left; exact ⟨rfl, fs, rfl⟩
+  · simp only [] at h; subst h; right; exact ⟨p, rfl, rfl⟩
 
 /-! ## the abstract map under `setup` -/
 
@@ -296,6 +363,10 @@ def absStep (m : ResId → Option Nat) : Op → (ResId → Option Nat)
   | .entry ty tok _ => if (m ⟨ty, 0⟩).isSome then m else upd m ⟨ty, 0⟩ (some tok)
   | .setup items toks => absSetup m items toks
   | .exec items toks => absSetup m items toks
+  | .insertFused a k tok => if a ≠ k.ty then m else upd m k (some tok)
+  | .entryFault ty tok (.guardHeld _) => if (m ⟨ty, 0⟩).isSome then m else upd m ⟨ty, 0⟩ (some tok)
+  | .entryFault ty tok .valueDrop => if (m ⟨ty, 0⟩).isSome then m else upd m ⟨ty, 0⟩ (some tok)
+  | .execFault items toks => absSetup m items toks
   | _ => m
 
 /-- **`refines`, state part**: every operation commutes with the abstraction -/
@@ -322,6 +393,27 @@ theorem step_abs (w : World) (op : Op) : (w.step op).1.abs = absStep w.abs op :=
   | metaNext tys idx x => exact (step_same_of_not_mut w _ rfl).abs
   | clone h => exact (step_same_of_not_mut w _ rfl).abs
   | drop h => exact (step_same_of_not_mut w _ rfl).abs
+  | scope tys takes e => exact (step_same_of_not_mut w _ rfl).abs
+  | insertFused a k tok => simp only [step, absStep]; rw [insertFused_fst, insertById_abs]
+  | entryFault ty tok f =>
+    cases f with
+    | guardHeld bv => simp only [step, absStep]; rw [entryFault_guardHeld_fst, entryScoped_abs]
+    | valueDrop =>
+      simp only [step, absStep, entryFault]
+      cases hk : w.get ⟨ty, 0⟩ with
+      | some c => simp [World.abs, hk]; rfl
+      | none =>
+        simp only []
+        rw [entryScoped_abs]
+    | closure =>
+      simp only [step, absStep, entryFault]
+      cases hk : w.get ⟨ty, 0⟩ with
+      | some c =>
+        simp only []
+        rw [entryScoped_abs]; simp [World.abs, hk]
+      | none => rfl
+  | execFault items toks =>
+    simp only [step, absStep]; rw [execFault_fst, (exec_same w items toks).abs, setup_abs]
 
 /-- field by field: a `Some` field shows the value the map stores under the item's id, a `None`
 field belongs to an `Option` item whose resource is absent -/
@@ -449,6 +541,38 @@ theorem step_created (w : World) (op : Op) (x : Nat) :
     | metaNext _ _ _ => cases hmut
     | clone _ => cases hmut
     | drop _ => cases hmut
+    | scope _ _ _ => cases hmut
+    | insertFused a k tok =>
+      simp only [step, Op.tokens]
+      rw [insertFused_fst]
+      simp only [insertById]
+      split <;> simp [List.count_append]
+    | entryFault ty tok f =>
+      cases f with
+      | guardHeld bv =>
+        simp only [step, Op.tokens]
+        rw [entryFault_guardHeld_fst, entryScoped_created]
+        split <;> simp [List.count_append]
+      | valueDrop =>
+        simp only [step, Op.tokens, entryFault]
+        cases hk : w.get ⟨ty, 0⟩ with
+        | some c => simp [List.count_append]
+        | none =>
+          simp only []
+          rw [entryScoped_created]
+          simp [List.count_append]
+      | closure =>
+        simp only [step, Op.tokens, entryFault]
+        cases hk : w.get ⟨ty, 0⟩ with
+        | some c =>
+          simp only []
+          rw [entryScoped_created]
+          simp [hk]
+        | none => simp
+    | execFault items toks =>
+      have := setup_created w items toks x
+      simp only [step, Op.tokens]
+      rw [execFault_fst, (exec_same w items toks).created]; omega
 
 theorem run_created (w : World) (ops : List Op) (x : Nat) :
     (w.run ops).created.count x ≤ w.created.count x + (ops.flatMap Op.tokens).count x := by
@@ -497,6 +621,31 @@ def OutOk (m : ResId → Option Nat) : Op → Out → Prop
         (m ⟨ty, 0⟩).isSome ∧ FetchOk m ⟨ty, 0⟩ false o)
   | .clone _, _ => True
   | .drop _, o => o = .unit
+  | .scope _ _ _, o => ∃ seen fin, o = .scopeDone seen fin
+  | .insertFused a k _, o => o = if a ≠ k.ty then .panic .wrongType else
+      if (m k).isSome then .unwound .drop else .unit
+  | .entryFault _ _ (.guardHeld _), o => o = .unwound .closure
+  | .entryFault ty tok .valueDrop, o => o = if (m ⟨ty, 0⟩).isSome then .unwound .drop else .seen tok
+  | .entryFault ty _ .closure, o => o = match m ⟨ty, 0⟩ with | some t => .seen t | none => .unwound .closure
+  | .execFault _ _, o => (∃ p, o = .panic p) ∨ o = .unwound .closure
+
+/-- with no live guard the `entry` call itself cannot fail, so a caller that panics while holding
+its guard is what unwinds it -/
+theorem entryFault_guardHeld_out {w : World} (hw : Inv w) (hg : w.guards = []) (ty t : Nat) (bv : Bool) :
+    (w.entryFault ty t (.guardHeld bv)).2 = .unwound .closure := by
+  rw [inv_of_no_guards hg] at hw
+  simp only [entryFault, entryOrInsert]
+  cases hk : w.get ⟨ty, 0⟩ with
+  | some c =>
+    have hb : tryBorrow c.borrow true = some .excl := by rw [hw _ c hk]; rfl
+    cases bv
+    · simp only [Bool.false_eq_true, if_false]
+      rw [fetchCore_ok _ _ _ _ _ hk hb]
+    · simp only [if_true]
+      rw [fetchCore_ok (c := c) _ _ _ _ _ (by exact hk) hb]
+  | none =>
+    simp only []
+    rw [fetchCore_ok (c := ⟨ty, t, .free⟩) (b' := .excl) _ _ _ _ _ (by simp [get_def]) rfl]
 
 theorem fetchCore_fetchOk (w : World) (k : ResId) (excl : Bool) (f : Form) (orPanic : Bool) :
     FetchOk w.abs k orPanic (w.fetchCore k excl f orPanic).2 := by
@@ -578,6 +727,31 @@ theorem step_out {w : World} (hw : Inv w) (op : Op) (hl : op.isMut = true → w.
       · rw [h2]; exact fetchCore_fetchOk _ _ _ _ _
   | clone h => exact True.intro
   | drop h => rfl
+  | scope tys takes e => exact ⟨_, _, rfl⟩
+  | insertFused a k tok => simp only [OutOk, step, insertFused_out]
+  | entryFault ty tok f =>
+    have hg := hl rfl
+    cases f with
+    | guardHeld bv => exact entryFault_guardHeld_out hw hg ty tok bv
+    | valueDrop =>
+      simp only [OutOk, step, entryFault]
+      cases hk : w.get ⟨ty, 0⟩ with
+      | some c => simp [World.abs, hk]
+      | none =>
+        simp only []
+        rw [entryScoped_out hw hg]; simp [World.abs, hk]
+    | closure =>
+      simp only [OutOk, step, entryFault]
+      cases hk : w.get ⟨ty, 0⟩ with
+      | some c =>
+        simp only []
+        rw [entryScoped_out hw hg]; simp [World.abs, hk]
+      | none => simp [World.abs, hk]
+  | execFault items toks =>
+    simp only [OutOk, step]
+    rcases (execFault_spec w items toks).2 with ⟨h, _⟩ | ⟨p, h, _⟩
+    · right; exact h
+    · left; exact ⟨p, h⟩
 
 /-! ## consequences of conservation -/
 
@@ -661,7 +835,7 @@ theorem entryScoped_not_wrongType (w : World) (ty t : Nat) (bv : Bool) :
 type argument, and from nowhere else -/
 theorem step_wrongType (w : World) (op : Op) (h : (w.step op).2 = .panic .wrongType) :
     ∃ a k, a ≠ k.ty ∧ ((∃ t, op = .insertById a k t) ∨ op = .removeById a k ∨ op = .tryFetchById a k ∨
-      op = .tryFetchMutById a k) := by
+      op = .tryFetchMutById a k ∨ (∃ t, op = .insertFused a k t)) := by
   cases op with
   | insert ty tok => simp [step, World.insert, insertById] at h
   | insertById a k tok =>
@@ -697,7 +871,7 @@ theorem step_wrongType (w : World) (op : Op) (h : (w.step op).2 = .panic .wrongT
       exact absurd h (fetchCore_not_wrongType _ _ _ _ _)
   | tryFetchMutById a k =>
     by_cases hx : a ≠ k.ty
-    · exact ⟨a, k, hx, Or.inr (Or.inr (Or.inr rfl))⟩
+    · exact ⟨a, k, hx, Or.inr (Or.inr (Or.inr (Or.inl rfl)))⟩
     · simp only [step, tryFetchMutById, hx, if_false] at h
       exact absurd h (fetchCore_not_wrongType _ _ _ _ _)
   | systemData items => exact absurd h (sysData_not_wrongType _ _)
@@ -716,5 +890,101 @@ theorem step_wrongType (w : World) (op : Op) (h : (w.step op).2 = .panic .wrongT
       · exact fetchCore_not_wrongType _ _ _ _ _ h
     · cases h
   | drop x => cases h
+  | scope tys takes e => simp [step, scope] at h
+  | insertFused a k tok =>
+    by_cases hx : a ≠ k.ty
+    · exact ⟨a, k, hx, Or.inr (Or.inr (Or.inr (Or.inr ⟨tok, rfl⟩)))⟩
+    · simp only [step, insertFused_out, hx, if_false] at h; split at h <;> cases h
+  | entryFault ty tok f =>
+    exfalso
+    cases f with
+    | guardHeld bv =>
+      exact entryScoped_not_wrongType w ty tok bv (entryFault_guardHeld_panic w ty tok bv _ h)
+    | valueDrop =>
+      simp only [step, entryFault] at h
+      cases hk : w.get ⟨ty, 0⟩ with
+      | some c => simp only [hk] at h; cases h
+      | none => simp only [hk] at h; exact entryScoped_not_wrongType _ _ _ _ h
+    | closure =>
+      simp only [step, entryFault] at h
+      cases hk : w.get ⟨ty, 0⟩ with
+      | some c => simp only [hk] at h; exact entryScoped_not_wrongType _ _ _ _ h
+      | none => simp only [hk] at h; cases h
+  | execFault items toks =>
+    exfalso
+    have h1 := sysData_not_wrongType (w.setup items toks).1 items
+    simp only [step, execFault] at h
+    generalize sysData _ items = r at h1 h
+    obtain ⟨w2, o⟩ := r
+    cases o <;> first | exact h1 h | cases h
 
+/-! ## values in the caller's hands, and the end of the world when a `Drop` panics -/
+
+theorem count_filter_ite (l : List Nat) (p : Nat → Bool) (a : Nat) :
+    (l.filter p).count a = if p a then l.count a else 0 := by
+  by_cases hpa : p a = true
+  · rw [if_pos hpa]; exact List.count_filter hpa
+  · rw [if_neg hpa]
+    apply List.count_eq_zero.mpr
+    intro hm
+    exact hpa (List.mem_filter.mp hm).2
+
+/-- the caller dropping a value `remove` handed back moves it from `returned` to `dropped` -/
+theorem dropReturned_linear {w : World} (hl : Linear w) (t : Nat) : Linear (w.dropReturned t) := by
+  unfold dropReturned
+  split
+  · rename_i hm
+    intro x
+    have := hl x
+    simp only [World.tokens, List.count_append] at this ⊢
+    by_cases hx : x = t
+    · subst hx
+      have hp : 0 < w.returned.count x := List.count_pos_iff.mpr hm
+      rw [List.count_erase_self]
+      simp only [List.count_cons_self, List.count_nil]
+      omega
+    · rw [List.count_erase_of_ne hx]
+      have : [t].count x = 0 := List.count_eq_zero.mpr (by intro hm; exact hx (List.mem_singleton.mp hm))
+      omega
+  · exact hl
+
+/-- **the world dropped while one `Drop` panics**: every value the world held is afterwards dropped
+or leaked, never both, never twice -/
+theorem dropWorldPanic_once {w w' : World} {tok : Nat} {before leaked : List Nat} (hl : Linear w)
+    (hn : w.created.Nodup) (h : w.dropWorldPanic tok before = some (w', leaked)) (t : Nat) (ht : t ∈ w.created) :
+    w'.dropped.count t + w'.returned.count t + leaked.count t = 1 ∧ w'.cells = [] := by
+  unfold dropWorldPanic at h
+  simp only [] at h
+  split at h
+  · rename_i hc
+    obtain ⟨h1, h2, h3, h4⟩ := hc
+    simp only [Option.some.injEq, Prod.mk.injEq] at h
+    obtain ⟨rfl, rfl⟩ := h
+    refine ⟨?_, rfl⟩
+    have hlin := linear_once hl hn t ht
+    have hcr : w.created.count t = 1 := by rw [hn.count, if_pos ht]
+    have hst : (w.cells.map (·.2.token)).count t ≤ 1 := by
+      have := hl t; simp only [World.tokens] at this; omega
+    simp only [World.tokens] at hlin
+    simp only [List.count_append, count_filter_ite]
+    have key : before.count t + [tok].count t +
+        (if (decide (t ≠ tok ∧ t ∉ before)) = true then (w.cells.map (·.2.token)).count t else 0) =
+        (w.cells.map (·.2.token)).count t := by
+      by_cases e1 : t = tok
+      · subst e1
+        have : before.count t = 0 := List.count_eq_zero.mpr h2
+        have : (w.cells.map (·.2.token)).count t = 1 := by
+          have := List.count_pos_iff.mpr h1; omega
+        simp; omega
+      · by_cases e2 : t ∈ before
+        · have hb : before.count t = 1 := by rw [h3.count, if_pos e2]
+          have : (w.cells.map (·.2.token)).count t = 1 := by
+            have := List.count_pos_iff.mpr (h4 t e2); omega
+          have hk : [tok].count t = 0 := List.count_eq_zero.mpr (by intro hm; exact e1 (List.mem_singleton.mp hm))
+          simp [e1, e2]; omega
+        · have hb : before.count t = 0 := List.count_eq_zero.mpr e2
+          have hk : [tok].count t = 0 := List.count_eq_zero.mpr (by intro hm; exact e1 (List.mem_singleton.mp hm))
+          simp [e1, e2, hb, hk]
+    omega
+  · cases h
 end Shred
